@@ -85,6 +85,12 @@ pub fn check_layout(c: &LayoutCase) -> Check {
     let direct = no_panic("decode_volume_coverage_pattern", || vcp::decode_volume_coverage_pattern(&mut &body[..]))?
         .map_err(|e| Fail::new("vcp:wellformed-rejected", format!("direct decode failed: {:?}", e)))?;
     check_vcp_message(&c.vcp, &direct)?;
+    for step in crate::runner::CHUNK_STEPS {
+        let mut r = crate::runner::Chunked::new(&body, step);
+        let mc = no_panic("decode_volume_coverage_pattern", || vcp::decode_volume_coverage_pattern(&mut r))?
+            .map_err(|e| Fail::new("vcp:decode-error-short-reads", format!("reader delivering {} byte(s) per read: {:?}", step, e)))?;
+        ensure!(mc == direct, "vcp-layout:depends-on-read-chunking", "VCP decoded from a reader delivering {} byte(s) per read differs from the slice decode", step);
+    }
     // frame path
     let msg = MsgSpec { header: c.header.clone(), body: BodySpec::Vcp(c.vcp.clone(), c.filler.clone()) };
     let bytes = msg.encode();
